@@ -107,6 +107,12 @@ func violate(t *rapid.T, sig string, format string, a ...interface{}) {
 // wrap runs a property body, swallowing stopHistory.
 func wrap(body func(t *rapid.T)) func(t *rapid.T) {
 	return func(t *rapid.T) {
+		// the order of every map iteration inside the generated converters is a rapid draw
+		VerifSimOrder = func(site string, n int) (int, bool) {
+			x := rapid.IntRange(0, 2*n-1).Draw(t, "maporder")
+			return x % n, x >= n
+		}
+		defer func() { VerifSimOrder = nil }()
 		defer func() {
 			if r := recover(); r != nil {
 				if _, ok := r.(stopHistory); ok {
@@ -257,6 +263,7 @@ func writeStats() {
 	st.mu.Lock()
 	defer st.mu.Unlock()
 	st.NClasses = len(st.Classes)
+	st.Probes["generated-code-map-iterations-with->=2-keys"] = VerifSimMapRanges
 	if p := os.Getenv("VERIF_OUT"); p != "" {
 		b, _ := json.MarshalIndent(st, "", " ")
 		_ = os.WriteFile(p, b, 0o644)
